@@ -36,6 +36,7 @@ ENGINES = {
     "queue": {"liveness_marker": "T"},
     "sock": {},
     "holder": {},
+    "macros": {},
 }
 
 KERNEL_SOCKETS = "the operating system's datagram sockets: one send_to = one datagram or one error; loopback delivery is loss-free and synchronous (a missing datagram is waited for up to 200 ms)"
@@ -245,6 +246,16 @@ PROPS = {
         "rule": _S_RULE,
         "exhaustive_part": "",
     },
+    "C17": {
+        "engine": "macros",
+        "level_text": "Lean 4 theorems C17.unset_panics_first / panics_iff_unset / evaluates_each_argument_once_in_order / same_as_tagged_quiet_send over a model of the _generate_impl! expansion whose send is the `call` of C01/C03/C04. PARTIAL: the expansion model is tied to macros.rs by sampled invocations (all 7 macros x every value type x 0..4 tags, counting blocks, one fresh child process per global configuration incl. unset), not by translating the macro_rules! source.",
+        "level_note": _FMT_NOTE + "; the model of the macro expansion is hand-written",
+        "technique": "Lean 4 proof over a model of the macro expansion + instrumented-invocation correspondence in fresh child processes",
+        "trusted_base": _FMT_TB,
+        "assumptions": [STD_DISPLAY, "Rust evaluates macro-substituted argument expressions where the expansion places them"],
+        "rule": "engine macros: per sampled global configuration (prefix, 0-3 default tags, optional container, unset every 12th) one child process; in it all 22 value-typed entry points through their statsd_*! macro with tag arity rotating over 0..4, each argument wrapped in a counting block, accept/refuse sink scripts, boundary values incl. overflowing Durations and empty lists; the event trace (evaluations, emit, handler, panic) is compared with the model's. Distinct by text; every case is non-trivial",
+        "exhaustive_part": "every macro x value type x tag arity 0..4 occurs in every run; configurations and values are sampled",
+    },
     "C18": {
         "engine": "holder",
         "level_text": "Lean 4 theorems C18.race_free_and_single_winner / protocol_invariant / reports_set_only_after_complete / orderings_are_needed over a release/acquire memory model: any number of threads, any programs of set/get/is_set, every schedule and every coherence-permitted read, under the orderings written in state.rs. The hook traces the orderings the code actually passes; every interleaving of the listed 2-3 thread program sets is executed on the real SingletonHolder under a controlled scheduler and compared event by event.",
@@ -265,19 +276,31 @@ PROPS = {
         "rule": _WRITER_RULE,
         "exhaustive_part": "small-scope enumeration of the mlw engine (see rule); the random parts are sampled",
     },
+    "C20": {
+        "engine": ["fmt", "mlw", "queue", "sock", "macros"],
+        "level_text": "Lean 4 theorems C20.writer_never_panics / size_hint_never_panics / duration_conversions_safe / queued_never_panics / calls_total: the library's checked arithmetic and unwraps, modelled with an explicit panic outcome, are shown unreachable (under the resource hypothesis that the inputs exist in memory). Every engine runs its hostile stream under catch_unwind with overflow checks and debug assertions on; any panic is a violation.",
+        "level_note": "Trusted: Lean kernel + propext/Classical.choice/Quot.sound; which arithmetic exists in the code is read off the source by hand (modelled: MultiLineWriter::write, from_val/with_tag/size_hint, Duration conversions, queued()); allocation failure, thread-spawn failure and stack exhaustion are excluded by hypothesis",
+        "technique": "Lean 4 proof of the modelled checked arithmetic + catch_unwind correspondence over every engine's hostile inputs (overflow-checks, debug-assertions on)",
+        "trusted_base": [KERNEL, TIE, STD_BUFWRITER, STD_DISPLAY, CROSSBEAM],
+        "assumptions": ["every Vec/String an API call refers to exists in memory (total < 2^59 bytes/elements)", "no allocation / thread-spawn failure"],
+        "rule": "engines fmt, mlw, queue, sock, macros: all their generated cases (hostile streams: empty / delimiter-laden / multi-byte / 40 kB strings, NaN / inf / -0.0 / subnormals / 1e300, i64::MIN, u64::MAX, Duration::MAX and the overflow boundaries, empty and 300-element packed lists, capacities 0 and 1, queue capacities 0 and 1) run under catch_unwind; a case is non-trivial by its engine's rule",
+        "exhaustive_part": "the small-scope parts of the mlw and queue engines",
+    },
 }
 
 
 MANIFEST_ENGINES = [
-    {"name": "sock", "path": "harness/src/bin/sock.rs", "serves_properties": ["C12", "C13", "C14"],
+    {"name": "macros", "path": "harness/src/bin/macros.rs", "serves_properties": ["C17", "C20"],
+     "kind_free_text": "the seven statsd_*! macros with counting-block arguments, one fresh child process per global-client configuration"},
+    {"name": "sock", "path": "harness/src/bin/sock.rs", "serves_properties": ["C12", "C13", "C14", "C20"],
      "kind_free_text": "socket sinks on real loopback UDP / Unix datagram sockets with a reading peer; multi-threaded runs; lock-contention scenario"},
     {"name": "holder", "path": "harness/src/bin/holder.rs", "serves_properties": ["C18"],
      "kind_free_text": "SingletonHolder under a controlled scheduler through the cfg(cadence_verif) shim"},
-    {"name": "queue", "path": "harness/src/bin/queue.rs", "serves_properties": ["C08", "C09", "C10", "C11", "C15", "C16"],
+    {"name": "queue", "path": "harness/src/bin/queue.rs", "serves_properties": ["C08", "C09", "C10", "C11", "C15", "C16", "C20"],
      "kind_free_text": "drives QueuingMetricSink / its builder with a gated scripted wrapped sink recording thread id, call order, handler calls and its own Drop; plus free-running multi-producer stress"},
-    {"name": "fmt", "path": "harness/src/bin/fmt.rs", "serves_properties": ["C01", "C02", "C03", "C04"],
+    {"name": "fmt", "path": "harness/src/bin/fmt.rs", "serves_properties": ["C01", "C02", "C03", "C04", "C20"],
      "kind_free_text": "drives StatsdClient (24 entry points x 3 call forms x builder options), the standalone constructors, a scripted MetricSink and a recording error handler"},
-    {"name": "mlw", "path": "harness/src/bin/mlw.rs", "serves_properties": ["C05", "C06", "C07", "C19"],
+    {"name": "mlw", "path": "harness/src/bin/mlw.rs", "serves_properties": ["C05", "C06", "C07", "C19", "C20"],
      "kind_free_text": "drives cadence::ext::MultiLineWriter and BufferedSpyMetricSink (also through StatsdClient::flush and QueuingMetricSink::flush) over a scripted recording Write; the Lean driver runs the model on the same cases"},
 ]
 
